@@ -29,3 +29,9 @@ snap = renames.snapshot({m.name: ast.parse(m.text) for m in r.modules.values()})
 out3 = os.path.join(os.path.dirname(out), "known_members.json")
 json.dump(snap, open(out3, "w"), indent=0, sort_keys=True)
 print(len(snap), "modules in known_members.json")
+
+from sa import callforms
+kc = callforms.compute_known(r)
+out4 = os.path.join(os.path.dirname(out), "known_callforms.json")
+json.dump(kc, open(out4, "w"), indent=0, sort_keys=True)
+print(len(kc), "callees with keyword-passed parameters in known_callforms.json")
